@@ -62,14 +62,16 @@ check("C16", "proof",
 
 check("C13", "proof",
       "A `modifies nothing` frame obligation for every store / in-place mutator call site in every method of the four encoder "
-      "classes, generated from the real AST on every run and discharged by the frame back end, with exactly one permitted site - "
-      "the documented PDS3 GROUP->OBJECT conversion `module[k] = self.objcls(v)` - whose effect on the caller's container is the "
-      "proved C10 contract of __setitem__; that contract drops a later item with the same name, which is the recorded finding "
-      "KF-C13-dupkey (carve-out, still replayed every run). Determinism obligations (no time/random/environment reads) give "
+      "classes, generated from the real AST on every run and discharged by the frame back end, with exactly one permitted place - "
+      "PDSLabelEncoder._replace_value, called only from encode() for the documented PDS3 GROUP->OBJECT conversion - whose effect "
+      "on the caller's container (the item at the index is replaced, every other item keeps its place) is a contract discharged "
+      "by the T_seq verifier against the C10 contracts of OrderedMultiDict.items/clear/extend; the shape of the two call sites "
+      "(arguments from enumerate(module.items()), guarded by the group test, followed by break) is a structural obligation. "
+      "Determinism obligations (no time/random/environment reads) give "
       "repeatability. A bounded snapshot-before/after driver runs alongside (not proof).",
       "Trusted: the frame back end's conservative points-to classification; set iteration order is fixed within a process; "
-      "quantity-class attribute getters are pure; C10's proof for the effect of the one permitted store.",
-      "contract-based verification: frame (modifies) obligations per store site over the real AST + C10 callee contract for the permitted mutation; bounded snapshot driver as stand-in",
+      "quantity-class attribute getters are pure; the OrderedMultiDict contracts used by _replace_value are the ones check C10 discharges.",
+      "contract-based verification: frame (modifies) obligations per store site over the real AST + SMT contract of the one permitted mutator against the C10 callee contracts; bounded snapshot driver as stand-in",
       "DESIGN.md §3 C13")
 
 check("C11", "other",
@@ -194,25 +196,37 @@ BOUNDED = {
          "encoders: second load equal up to the C01 normalisations, second dump byte-identical up to set order.", "DESIGN.md §3 C01/C02/C07"),
  "C03": ("exploration", "Abstract documents x concrete spellings (radix/sign positions, real forms, quotes, keyword case, delimiters, "
          "end names, separators) rendered by an independent generator that keeps the abstract tree as oracle x 5 parser "
-         "configurations; exhaustive for small documents over the spelling alphabet, seeded random beyond. The decoder lexeme "
-         "layer is under contract (regex/decoder back end, reported separately); lexer+parser composition is bounded.", "DESIGN.md §3 C03"),
+         "configurations; exhaustive for small documents over the spelling alphabet, seeded random beyond. Discharged alongside "
+         "(reported separately, not lifting the level): decoder contracts (T_dec), regex-language obligations (decode_non_decimal's "
+         "language == the dialect's based-integer syntax, prefix recognised by the lexer's pattern, decimal syntax accepted, "
+         "deviation exactly the recorded one) and the T_lex contracts of the lexer's per-character helpers (lex_continue's "
+         "look-ahead exceptions); the lexer's main loop and the lexer+parser composition are bounded.", "DESIGN.md §3 C03"),
  "C04": ("exploration", "Metamorphic: every adjacent token-kind pair x every separator (each white-space character, comments, mixtures, "
          "empty where optional) and random whole-label layouts x 5 parser configurations give the same module. A relational "
-         "claim about two runs of lexer+parser; no contract on one call expresses it.", "DESIGN.md §3 C04"),
+         "claim about two runs of lexer+parser; no contract on one call expresses it. Discharged alongside (not lifting the level): "
+         "T_lex contracts of the eight per-character helper functions of pvl/lexer.py against spec functions taken from the "
+         "statement (white space dropped only outside preserve states; inside a comment only its own end delimiter is significant; "
+         "quotes, units and based integers keep every character), and the same contract objects evaluated at run time on the real "
+         "functions.", "DESIGN.md §3 C04"),
  "C14": ("exploration", "Decode and encode-decode grids against an oracle built from the written fields: every day of years 0001-9999 "
          "in both date forms (thorough; boundary years in quick), every field boundary in every time form, every microsecond "
          "value for the PDS3 rule, every zone offset in 15/30-minute steps in every spelling x 5 dialect configurations; "
-         "finite grids enumerated completely are marked exhaustive.", "DESIGN.md §3 C14"),
+         "finite grids enumerated completely are marked exhaustive. Discharged alongside: T_dec decoder contracts and regex-language "
+         "obligations over the grammar's strptime format tables, leap-second patterns and the ODL offset pattern (syntax included, "
+         "families disjoint, leap-second language exact, offset split unique) for all strings.", "DESIGN.md §3 C14"),
  "C17": ("exploration", "All strings up to a length bound over a PVL-significant alphabet plus curated and random longer ones x 5 "
          "grammar/decoder pairs: one class per token text, predicates consistent with it, and the writer/reader obligation "
-         "(needs_quotes false => decodes to the identical string; encode_string round-trips) for the four encoders.", "DESIGN.md §3 C17"),
+         "(needs_quotes false => decodes to the identical string; encode_string round-trips) for the four encoders. Discharged "
+         "alongside: T_dec cascade/predicate contracts, Token construction-site obligations, and regex-language obligations that the "
+         "acceptance languages of the value classes are pairwise disjoint in every dialect (for all strings).", "DESIGN.md §3 C17"),
 }
 for pid, (cat, text, ref) in BOUNDED.items():
     check(pid, cat, text,
           "Bounded: the measured bounds are in the evidence file; recorded findings (known_findings.json) are carved out by key "
           "and replayed on every run. Oracles are independent of the library (spec functions written from the statement).",
           "bounded run of an independent oracle as labelled stand-in (the property is relational over lexer, parser, decoder and "
-          "encoder; the lexer is outside the verifier's reach); decoder/encoder lexeme obligations by the pyvc regex back end reported separately",
+          "encoder; the lexer's main loop is outside the verifier's reach); contract obligations on the decoder (T_dec), the lexer helpers "
+          "(T_lex) and the grammar's regular languages (z3 regex back end) discharged and reported separately",
           ref)
 
 
